@@ -81,9 +81,10 @@ pub fn normalise(m: &str) -> String {
     out
 }
 
+static QUIET: AtomicBool = AtomicBool::new(true);
+
 thread_local! {
     static LAST_PANIC: RefCell<Option<PanicInfo>> = RefCell::new(None);
-    static QUIET: Cell<bool> = Cell::new(true);
 }
 
 pub fn install_panic_hook() {
@@ -99,7 +100,7 @@ pub fn install_panic_hook() {
             Some(l) => (l.file().to_string(), l.line()),
             None => ("<unknown>".to_string(), 0),
         };
-        let quiet = QUIET.try_with(|q| q.get()).unwrap_or(true);
+        let quiet = QUIET.load(Ordering::Relaxed);
         if !quiet {
             eprintln!("[harness] panic: {} at {}:{}", msg, file, line);
         }
@@ -110,7 +111,7 @@ pub fn install_panic_hook() {
 }
 
 pub fn set_quiet(q: bool) {
-    QUIET.with(|c| c.set(q));
+    QUIET.store(q, Ordering::Relaxed);
 }
 
 /// Run `f`, converting a panic into a recorded event.
